@@ -373,9 +373,14 @@ reg("C07",
         LG.leg_skeleton(gen_big_record_programs(seed, tier), "tokio" if "tokio" in flavours else flavours[0]),
         LG.leg_skeleton(P.gen_roundtrip_programs(G.Rng(seed + 73), N(tier, 6, 40)), flavours[0]),
         *[LG.leg_observer_sweep(fl, tier) for fl in (flavours if tier == "thorough" else flavours[:1])],
+        *[LG.leg_pause_interfere(fl, tier) for fl in (flavours if tier == "thorough" else flavours[:1])],
         LG.leg_cold_start_race(flavours, N(tier, 12, 80))),
     nontrivial=lambda rr: True,
-    rule="(a) real concurrency: 6-12 processes (sync + async API, async-std and tokio binaries) on one cache: writers "
+    rule="(f) PAUSE AND INTERFERE - two MUTATING operations of two processes: the victim (write, write_hash, remove, "
+         "remove_hash; sync and async) is stopped by an injected SIGSTOP after its N-th system call of every mutating class, "
+         "the interferer (remove_hash of the same content, remove / write of the same key, a write of the same content under "
+         "another key, write_hash) runs to completion in another process, the victim is continued: both answers and every "
+         "lookup / read / listing afterwards must be those of one of the two serial orders; (a) real concurrency: 6-12 processes (sync + async API, async-std and tokio binaries) on one cache: writers "
          "of the same key, of different keys with equal content, removers, readers, listers; every read must be a "
          "written value, every successful write must have a whole record, content valid; (b) single-write skeleton: an "
          "index insert is exactly one write(2) on an O_APPEND descriptor, also for records of several MiB; (c) the whole "
